@@ -166,6 +166,9 @@ def run(ctx):
     add('UtriangleQsparse', 'R 3x3, b 3x2', utri(3, 3, 2), D('(mkarr true DReal 2 3 3 0)', '(mkarr true DReal 2 3 2 0)'), 'accept')
     add('UtriangleQsparse', 'R 3x3, b 2x1', utri(3, 2), D('(mkarr true DReal 2 3 3 0)', '(mkarr true DReal 2 2 1 0)'), 'reject')
     add('UtriangleQsparse', 'R 1x1, b 1x1', utri(1, 1), D('(mkarr true DReal 2 1 1 0)', '(mkarr true DReal 2 1 1 0)'), 'accept')
+    for nr in (2, 3, 4):
+        for nb, kk in ((nr + 1, 1), (nr + 2, 2), (2 * nr, 1), (nr - 1, 1)):
+            add('UtriangleQsparse', f'R {nr}x{nr}, b {nb}x{kk}', utri(nr, nb, kk), D(f'(mkarr true DReal 2 {nr} {nr} 0)', f'(mkarr true DReal 2 {nb} {kk} 0)'), 'reject')
     # reflector builders: (a, v) must have the same shape (flat / column / row) and v must be real
     tri = importlib.import_module('decomp.tridiagonalize')
     def hv(shape_a, shape_v, vdt='real', fn='householder_vector'):
